@@ -3,7 +3,7 @@
 # only a property text and its anchored files): each is applied in a scratch worktree and the quick checks of every
 # property anchored in a touched file (+ C03, C16, C17) are run against it. Expected: no VIOLATION line, all exit codes 0.
 cd "$(dirname "$0")/.."
-for d in benign/C*-*; do
+for d in benign/C*-[a-d]; do
   id=${d#benign/}; pid=${id%-*}
   patch=$PWD/$d/patch.diff
   props=$(python3 - "$patch" "$pid" <<'PY'
